@@ -170,3 +170,25 @@ def x_namedtuple(a: int, b: int, items: list):
     for x in box.items:
         r += x
     return (p[0], p.second, q.first, q[1], d.second, len(box), trim, f + s, r, p == (a, b), box.pair.first, its is items, len(its))
+class XBox:
+    """Receiver of x_iadd_attr (a plain object with one list field)."""
+
+    def x_iadd_attr(self, v: int):
+        # `obj.attr += [..]` on a list extends the list object in place: the alias taken before sees the new items
+        alias = self.items
+        self.items += [v, v + 1]
+        return (alias is self.items, list(alias), len(alias))
+
+
+def x_iadd_subscript(items: list, v: int):
+    # the same through a subscript target: box[0] += [..] extends the list held in the slot, in place
+    a = list(items)
+    box = (1, 2)
+    holder = [a, box]
+    holder[0] += [v]
+    return (holder[0] is a, list(a), len(holder))
+
+
+def x_minmax_single(a: int):
+    # max / min of a one-element list is that element
+    return (max([a]), min([a]), max([a, a + 1]))
